@@ -239,6 +239,20 @@ func runRefCase(id int, c refCase, prog []string) (o *refObs) {
 		o.Steps = append(o.Steps, st)
 	}
 	for _, op := range prog {
+		// between two conversions the value is only LOOKED at: every read-only accessor is called, and a copy of
+		// it is handed to an expansion; neither may change what the value prints, classifies or encodes as
+		held := ref
+		_ = held.IsValidURI()
+		_ = held.IsRoot()
+		_ = held.IsCanonical()
+		_ = held.RemoteURI()
+		_ = held.GetURL()
+		_ = held.GetPointer()
+		if child, err := spec.NewRef("other.json#/definitions/o"); err == nil {
+			_, _ = held.Inherits(child)
+		}
+		refUse(held)
+		check("look", &ref)
 		switch op {
 		case "reparse":
 			r2, err := spec.NewRef(ref.String())
@@ -290,4 +304,16 @@ func runRefCase(id int, c refCase, prog []string) (o *refObs) {
 	}
 	o.Orig, o.Want = ascii(o.Orig), ascii(o.Want)
 	return o
+}
+
+// refUse hands a copy of the reference to an expansion (the loader answers every request).
+func refUse(r spec.Ref) {
+	defer func() { _ = recover() }()
+	doc := json.RawMessage(`{"definitions":{"a":{"title":"x"}},"a/b~c":{"title":"y"},"a%b":{"title":"z"},"title":"doc"}`)
+	s := spec.Schema{SchemaProps: spec.SchemaProps{Ref: r}}
+	_ = spec.ExpandSchemaWithBasePath(&s, nil, &spec.ExpandOptions{RelativeBase: "file:///w/r/root.json",
+		PathLoader: func(string) (json.RawMessage, error) { return doc, nil }})
+	p := spec.Parameter{Refable: spec.Refable{Ref: r}}
+	_, _ = spec.ResolveParameterWithBase(nil, p.Ref, &spec.ExpandOptions{RelativeBase: "file:///w/r/root.json",
+		PathLoader: func(string) (json.RawMessage, error) { return doc, nil }})
 }
